@@ -134,10 +134,62 @@ func TestVerifC13HTTPServer(t *testing.T) {
 				}
 				return m, true
 			}
+			if t.String() == "httpserver.Path" && !g.chance(path, "generic", 15) {
+				// one way of matching the path per entry most of the time, so that every branch of
+				// MuxPath.rewrite (exact / prefix / regexp) is reached with and without a rewriteTarget
+				m := map[string]interface{}{}
+				g.Struct(t, path, m)
+				style := g.pick(path, "style", "exact", "prefix", "regexp", "exact+prefix", "any")
+				keep := map[string]bool{"exact": style == "exact" || style == "exact+prefix", "prefix": style == "prefix" || style == "exact+prefix", "regexp": style == "regexp"}
+				if !keep["exact"] {
+					delete(m, "path")
+				} else if _, ok := m["path"]; !ok {
+					m["path"] = g.pick(path, "path", "/a", "/a/b", "/status", "/", "/a/")
+				}
+				if !keep["prefix"] {
+					delete(m, "pathPrefix")
+				} else if _, ok := m["pathPrefix"]; !ok {
+					m["pathPrefix"] = g.pick(path, "prefix", "/a", "/", "/a/b/")
+				}
+				if !keep["regexp"] {
+					delete(m, "pathRegexp")
+				} else if _, ok := m["pathRegexp"]; !ok {
+					m["pathRegexp"] = g.pick(path, "re", "^/a", "^/x(\\d+)/?$", ".*")
+				}
+				if style != "any" && g.chance(path, "rewrite", 50) {
+					m["rewriteTarget"] = g.pick(path, "rewriteTarget", "/new", "/r/$1", "/")
+					g.present[path+".rewriteTarget"] = true
+				} else if style == "any" {
+					delete(m, "rewriteTarget")
+				}
+				if b, _ := m["backend"].(string); b == "" || g.chance(path, "live-backend", 50) {
+					m["backend"] = g.pick(path, "backend", "pl1", "pl2")
+				}
+				return m, true
+			}
+			if t.String() == "ipfilter.Spec" && !g.chance(path, "generic", 30) {
+				m := map[string]interface{}{}
+				g.Struct(t, path, m)
+				m["blockByDefault"] = g.chance(path, "blockByDefault", 15)
+				return m, true
+			}
 			return nil, false
 		}
 		tree := map[string]interface{}{}
 		g.Struct(specT, "", tree)
+		if rs, _ := tree["rules"].([]interface{}); len(rs) == 0 && g.chance("rules", "ensure", 80) {
+			// most servers get at least one rule with at least one path
+			f, _ := specT.FieldByName("Rules")
+			rm := map[string]interface{}{}
+			g.Struct(f.Type.Elem().Elem(), "rules[]", rm)
+			if ps, _ := rm["paths"].([]interface{}); len(ps) == 0 {
+				pf, _ := f.Type.Elem().Elem().FieldByName("Paths")
+				pv, _ := g.Value(pf.Type.Elem(), vfTag{name: "paths"}, "rules[].paths[]")
+				rm["paths"] = []interface{}{pv}
+			}
+			tree["rules"] = []interface{}{rm}
+			g.present["rules"] = true
+		}
 		port := vfPickPort()
 		if port == 0 {
 			rt.Fatalf("VF-INCONCLUSIVE no free TCP port")
@@ -234,7 +286,7 @@ func TestVerifC13HTTPServer(t *testing.T) {
 			path := g.pick("req", "path", "/", "/a", "/a/b", "/status", "/x", "/.well-known/acme-challenge/tok")
 			var wantHdr [][2]string
 			targeted := false
-			if tgt := vfHSPickTarget(g, tree); tgt != nil && g.chance("req", "targeted", 65) {
+			if tgt := vfHSPickTarget(g, tree); tgt != nil && g.chance("req", "targeted", 85) {
 				// a request derived from one configured (rule, path) entry: near-miss variants of its
 				// path / host / method, headers that satisfy its header matchers
 				targeted = true
